@@ -226,7 +226,7 @@ class ModbusRtuFramer(ModbusFramer):
             unit = [unit]
         self.addToFrame(data)
         single = kwargs.get("single", False)
-        if self.isFrameReady():
+        while self._isFrameComplete() and self.isFrameReady():
             if self.checkFrame():
                 if self._validate_unit_id(unit, single):
                     self._process(callback)
@@ -239,6 +239,21 @@ class ModbusRtuFramer(ModbusFramer):
                 self.resetFrame()
         else:
             _logger.debug("Frame - [{}] not ready".format(data))
+
+    def _isFrameComplete(self):
+        """
+        Check if the buffer holds at least one whole frame. The frame size is
+        always taken from the buffered bytes, never from a stale header.
+        """
+        if len(self._buffer) <= self._hsize:
+            return False
+        try:
+            self.populateHeader()
+        except (IndexError, struct.error):
+            # the size depends on bytes that have not arrived yet
+            self._header = {}
+            return False
+        return len(self._buffer) >= self._header['len']
 
     def buildPacket(self, message):
         """
